@@ -640,22 +640,22 @@ func (m *Machine) DrawFaultOp(t *rapid.T) *FaultOp {
 			}
 		}
 	}
-	add("next-external", 3, true)
-	add("next-internal", 3, true)
+	add("next-external", 2, true)
+	add("next-internal", 2, true)
 	add("extend-external", 1, true)
 	add("extend-internal", 1, true)
-	add("new-account", 2, unlocked)
+	add("new-account", 3, unlocked)
 	add("new-watch-only-account", 2, true)
 	add("rename-account", 2, true)
-	add("import-key", 2, unlocked)
-	add("import-script", 2, unlocked)
-	add("mark-used", 1, len(unused) > 0)
+	add("import-key", 3, unlocked)
+	add("import-script", 3, unlocked)
+	add("mark-used", 2, len(unused) > 0)
 	add("set-synced-to", 1, true)
 	add("set-birthday-block", 1, true)
 	add("change-passphrase-public", 1, true)
 	add("change-passphrase-private", 1, true)
-	add("new-scope", 2, unlocked)
-	add("convert-to-watching-only", 2, true)
+	add("new-scope", 3, unlocked)
+	add("convert-to-watching-only", 1, true)
 	kind := rapid.SampledFrom(kinds).Draw(t, "c10kind")
 	switch kind {
 	case "next-external", "next-internal":
